@@ -692,19 +692,18 @@ def check_sets(run: Run, prog: Program, roles: BatteryRoles) -> None:
 
 
 # ---------------------------------------------------------------------------------------------
-def _cancel_tasks_ok(prog: Program) -> tuple[FuncInfo, bool]:
-    """BatteryManager._cancel_tasks(P): cancels every element of P, then awaits all of them
+def _cancel_helper_ok(prog: Program, callee: FuncInfo) -> bool:
+    """A cancel-and-wait helper `h(P)`: cancels every element of P, then awaits all of them
     (gather with return_exceptions=True) on every normal path."""
-    ct = _norm(prog, prog.func(f"{BM}._cancel_tasks"))
+    ct = _norm(prog, callee)
     ps = method_params(ct)
     if len(ps) != 1:
-        return ct, False
+        return False
     cfg = CFG(ct.node, ct.file)
     loops, gathers = cancel_and_gather(cfg, ps[0])
-    ok = bool(loops) and bool(gathers) \
+    return bool(loops) and bool(gathers) \
         and cfg.path(cfg.entry, [cfg.exit], avoid=gathers, edge_ok=normal_edge) is None \
         and cfg.path(cfg.entry, gathers, avoid=loops, edge_ok=normal_edge) is None
-    return ct, ok
 
 
 def check_all(run: Run, prog: Program, roles: BatteryRoles, loops_info: dict[str, dict[str, str]]) -> None:
@@ -713,6 +712,7 @@ def check_all(run: Run, prog: Program, roles: BatteryRoles, loops_info: dict[str
     pr_info = loops_info.get(roles.pr.qual)
     pv_info = loops_info.get(pv.qual)
     sends: dict[str, dict[str, Any]] = {}
+    cancel_helpers: list[tuple[FuncInfo, bool]] = []
     for fn, want_map in ((sd, None), (pv, pv_info["alloc"] if pv_info else None)):
         run.analysed(fn.qual)
         if fn is sd:
@@ -752,14 +752,23 @@ def check_all(run: Run, prog: Program, roles: BatteryRoles, loops_info: dict[str
             pend = u(s.targets[0].elts[1]) if isinstance(s, ast.Assign) and isinstance(  # type: ignore[union-attr]
                 s.targets[0], ast.Tuple) and len(s.targets[0].elts) == 2 else None
             if ok and pend:
-                cancels = nodes_with_call(cfg, lambda c: method_call(c, "self", "_cancel_tasks")
-                                          and [u(a) for a in bound_args(
-                                              c, method_params(prog.func(f"{BM}._cancel_tasks")),
-                                              "_cancel_tasks").values()] == [pend])
-                cancels = [x for x in cancels if cfg.is_await(x)]
-                if not cancels:
-                    c1, g1 = cancel_and_gather(cfg, pend)
-                    cancels = g1 if c1 and g1 and cfg.path(cfg.entry, g1, avoid=c1, edge_ok=normal_edge) is None else []
+                # the timed-out calls are cancelled and awaited: inline (loop + gather), or by an awaited
+                # private helper that is handed exactly the pending set (whatever it is called)
+                c1, g1 = cancel_and_gather(cfg, pend)
+                cancels = g1 if c1 and g1 and cfg.path(cfg.entry, g1, avoid=c1, edge_ok=normal_edge) is None else []
+                if not cancels and fn.cls is not None:
+                    for x in cfg.nodes:
+                        if x.ast is None or not cfg.is_await(x.id):
+                            continue
+                        for c in node_calls(cfg, x.id, lambda c: isinstance(c.func, ast.Attribute)
+                                            and u(c.func.value) == "self" and len(c.args) + len(c.keywords) == 1):
+                            callee = prog.resolve_method(fn.cls, c.func.attr)  # type: ignore[attr-defined]
+                            if callee is None or not callee.is_async:
+                                continue
+                            only = list(bound_args(c, method_params(callee), "cancel helper").values())
+                            if len(only) == 1 and u(only[0]) == pend:
+                                cancel_helpers.append((callee, _cancel_helper_ok(prog, callee)))
+                                cancels.append(x.id)
                 readers = nodes_with_call(cfg, lambda c: (isinstance(c.func, ast.Attribute)
                                           and c.func.attr in ("result", "_parse_result")))
                 ok = bool(cancels) and bool(readers)
@@ -773,12 +782,12 @@ def check_all(run: Run, prog: Program, roles: BatteryRoles, loops_info: dict[str
                   "awaited first), or not all calls are awaited", node=fn.node, file=fn.file,
                   path=cfg.describe_path(wit),
                   instance=f"{fn.qual}: wait(all tasks, timeout) -> cancel+await pending -> read results")
-    # _cancel_tasks cancels all and awaits
-    ct, ok = _cancel_tasks_ok(prog)
-    run.analysed(ct.qual)
-    run.check(ok, "C15.ALL", ct.qual, "cancel every task then gather(return_exceptions=True)",
-              "_cancel_tasks does not cancel and await every pending task", node=ct.node, file=ct.file,
-              instance=f"{ct.qual}: cancel every task then await gather(return_exceptions=True)")
+    # a helper that is trusted with the pending calls cancels all of them and awaits them
+    for ct, ok in cancel_helpers:
+        run.analysed(ct.qual)
+        run.check(ok, "C15.ALL", ct.qual, "cancel every task then gather(return_exceptions=True)",
+                  f"{ct.name} does not cancel and await every pending task", node=ct.node, file=ct.file,
+                  instance=f"{ct.qual}: cancel every task then await gather(return_exceptions=True)")
     # battery: what is parsed is what was sent
     send = sends[sd.qual]
     ok = False
